@@ -53,6 +53,7 @@ func H_C13_find_catalogue(s any) {
 }
 
 // arbitrary short byte strings as a whole path
+//
 //vp:setup S_c08
 func H_C13_find_bytes(s any) {
 	m := s.(*meta.Module)
@@ -98,6 +99,7 @@ func H_C13_xpath_bytes() {
 }
 
 // SetValue with a value of any Go kind on every leaf type
+//
 //vp:setup S_c16
 func H_C13_setvalue_anykind(s any) {
 	m := s.(*meta.Module)
